@@ -12,8 +12,10 @@ package scen
 // Shared machinery of all C14 scenarios lives in this file:
 //
 //   - c14Flow: the common life cycle (workload -> Close at a drawn step ->
-//     drawn interleaving of Close with the parked calls -> drain -> in-flight
-//     operations return -> second Close -> census);
+//     drawn interleaving of Close with the parked calls, and - drawn - a
+//     second Close issued while the first is still running -> drain -> every
+//     Close call judged at the instant it returned -> in-flight operations
+//     return -> another Close after the first returned -> census);
 //   - c14Census: creators of the goroutines of *this* bubble that were not
 //     started by the harness;
 //   - c14Answer*: honest answers for parked seam calls (RPCs, dials, datastore
@@ -38,6 +40,28 @@ package scen
 //                                     (stores, keystores, providers) and with no
 //                                     operation in flight: any goroutine of the
 //                                     instance still exists.
+//   overlap-close-early               "may be called repeatedly" + "returns only
+//                                     after all goroutines the instance started
+//                                     have exited" hold for every call of Close,
+//                                     also for one issued while an earlier Close
+//                                     has not returned yet: the same census as
+//                                     close-early, taken at the first quiescent
+//                                     instant after the overlapping Close returned
+//                                     while the first one is still blocked.
+//   close-live-call                   "Close stops everything": at the first
+//                                     quiescent instant after Close returned (no
+//                                     other Close still running) a call of the
+//                                     instance sits at an environment seam (RPC,
+//                                     dial, datastore, router, crawl) with a
+//                                     context that is NOT done, and it does not
+//                                     belong to a caller's operation that is
+//                                     still in flight (calls carry the tag of the
+//                                     caller's context; untagged calls and calls
+//                                     of operations that already returned are
+//                                     work the instance runs on its own). Such a
+//                                     goroutine has not even been told to stop:
+//                                     it keeps using the host / datastore for as
+//                                     long as the environment lets it.
 //   op-panic                          an operation that was in flight when Close
 //                                     was called panicked on its caller's
 //                                     goroutine.
@@ -49,6 +73,15 @@ package scen
 //                                     passed, goroutines created by repository
 //                                     (or dependency) code that did not exist
 //                                     before the instance was built remain.
+//
+// The overlapping Close is generated for every component except the sweeping
+// provider and its wrappers: their Close is a sync.Once around blocking work,
+// and a second caller blocks on the Once's internal mutex, which synctest
+// cannot see (DESIGN §10). close-live-call never looks at calls while some
+// Close is still running (a Close may itself write to the datastore), at
+// calls without a context, or at calls tagged with an operation that has not
+// returned: a caller's operation runs on the caller's context and the
+// property only asks that it finishes or fails.
 //
 // Soundness notes: parked calls whose context is done are only ever released as
 // "cancelled" (answering them would race with the cancellation inside the
@@ -101,6 +134,10 @@ var c14CommonFaults = []string{
 	"probe_close_with_ops_inflight", "probe_close_with_rpc_parked", "probe_close_with_ds_parked",
 	"probe_close_interleaved", "probe_second_close", "probe_census_clean",
 }
+
+// c14OverlapFaults: probes of the scenarios that generate a second Close which
+// overlaps the first (see c14Flow.overlapOK).
+var c14OverlapFaults = []string{"probe_overlap_close", "probe_overlap_close_with_calls_parked"}
 
 // ---------------------------------------------------------------------------
 // goroutine census
@@ -487,6 +524,16 @@ type c14Flow struct {
 	// failure handlers then run in Go-scheduler order)
 	tickQuietOnly bool
 
+	// overlapOK: the scenario allows a second Close that overlaps the first
+	// (drawn in run). Not set for components whose Close is a sync.Once around
+	// blocking work: the second caller would block on the Once's internal
+	// mutex, which synctest cannot see (DESIGN §10).
+	overlapOK bool
+	// overlapOp is the overlapping Close (nil when none was issued);
+	// closeSeen records which Close calls were already judged at their return
+	overlapOp *Op
+	closeSeen map[*Op]bool
+
 	debugState func() string
 	closeOp    *Op
 	inflight   int // operations started and not finished when Close was issued
@@ -535,10 +582,15 @@ func (f *c14Flow) constructed(settle bool) {
 	}
 }
 
-// checkCloseInstant runs at the first quiescent point after Close returned,
-// before anything else is released.
-func (f *c14Flow) checkCloseInstant() {
+// checkCloseInstant runs at the first quiescent point after a Close call
+// returned, before anything else is released. overlapOnly: the call that
+// returned is the overlapping one and the first Close is still running.
+func (f *c14Flow) checkCloseInstant(overlapOnly bool) {
 	s := f.s
+	rule, what := "close-early", "Close"
+	if overlapOnly {
+		rule, what = "overlap-close-early", "a second Close, issued while the first had not returned yet,"
+	}
 	alive := map[string]int{}
 	for _, g := range c14Goroutines() {
 		alive[g.entry]++
@@ -551,8 +603,34 @@ func (f *c14Flow) checkCloseInstant() {
 	}
 	sort.Strings(early)
 	if len(early) > 0 {
-		s.Violate("close-early", "%s: Close returned while goroutines the constructor started are still running (they sit in calls that have not been answered yet): %s", f.name, strings.Join(early, ", "))
+		s.Violate(rule, "%s: %s returned while goroutines the constructor started are still running (they sit in calls that have not been answered yet): %s", f.name, what, strings.Join(early, ", "))
 		return
+	}
+	// No Close call is running any more: whatever still waits for the
+	// environment must at least have been told to stop.
+	if f.closeOp.Done && (f.overlapOp == nil || f.overlapOp.Done) {
+		inflight := map[string]bool{}
+		for _, c := range f.clients {
+			if c.started && !c.op.Done {
+				inflight["@"+c.tag] = true
+			}
+		}
+		var live []string
+		for _, p := range s.Parked() {
+			switch p.Kind {
+			case "rpc", "dial", "ds", "gcp", "crawl":
+			default:
+				continue
+			}
+			if p.Ctx == nil || p.Cancelled() || inflight[sim.TagOf(p.Ctx)] {
+				continue
+			}
+			live = append(live, p.ID)
+		}
+		if len(live) > 0 {
+			s.Violate("close-live-call", "%s: Close returned, yet the instance still has calls out to its environment whose context is not done and which belong to no operation still in flight (background work that was not told to stop): %s", f.name, strings.Join(live, ", "))
+			return
+		}
 	}
 	if !f.strict {
 		return
@@ -563,7 +641,7 @@ func (f *c14Flow) checkCloseInstant() {
 		}
 	}
 	if extra := c14Extra(f.base, c14Census()); len(extra) > 0 {
-		s.Violate("close-early", "%s: Close returned (no operation in flight) while goroutines started by the instance are still running: %s", f.name, strings.Join(extra, ", "))
+		s.Violate(rule, "%s: %s returned (no operation in flight) while goroutines started by the instance are still running: %s", f.name, what, strings.Join(extra, ", "))
 	}
 }
 
@@ -727,6 +805,16 @@ func (f *c14Flow) drain(done func() bool) bool {
 	return true
 }
 
+// closeReturned: some Close call returned that has not been judged yet.
+func (f *c14Flow) closeReturned() bool {
+	for _, op := range []*Op{f.closeOp, f.overlapOp} {
+		if op != nil && op.Done && !f.closeSeen[op] {
+			return true
+		}
+	}
+	return false
+}
+
 func (f *c14Flow) parkedKinds() map[string]int {
 	m := map[string]int{}
 	for _, p := range f.s.Parked() {
@@ -803,10 +891,39 @@ func (f *c14Flow) run() {
 	s.State("%s inflight=%d rpc=%d ds=%d dial=%d", f.name, f.inflight, min(kinds["rpc"], 3), min(kinds["ds"], 3), min(kinds["dial"], 2))
 	s.Tracef("close issued inflight=%d parked=%d", f.inflight, len(s.Parked()))
 	f.closeOp = f.ops.Go(s, "close", func() (any, error) { return nil, f.closeFn() })
+	f.closeSeen = map[*Op]bool{}
 	s.Quiesce()
 
+	// A second Close that overlaps the first: issued after a drawn number of
+	// phase-2 steps (0 = right away), provided the first has not returned.
+	overlapAt := -1
+	if f.overlapOK && s.Chance("overlap-close", 1, 2) {
+		overlapAt = s.Draw("overlap-at", f.interleave+1)
+	}
+	issueOverlap := func() {
+		overlapAt = -1
+		if f.closeOp.Done {
+			return
+		}
+		s.Count("probe_overlap_close")
+		s.Tracef("overlapping close issued")
+		f.overlapOp = f.ops.Go(s, "close-overlap", func() (any, error) { return nil, f.closeFn() })
+		s.Quiesce()
+		// the instance still waits for its environment (a GC sweep inside a
+		// datastore query, a request, ...): returning now would be early
+		if k := f.parkedKinds(); k["rpc"]+k["ds"]+k["dial"]+k["gcp"]+k["crawl"] > 0 {
+			s.Count("probe_overlap_close_with_calls_parked")
+		}
+	}
+
 	// phase 2: Close interleaves with the parked calls under the scheduler
-	for i := 0; i < f.interleave && !f.closeOp.Done; i++ {
+	for i := 0; i < f.interleave && !f.closeReturned(); i++ {
+		if i == overlapAt {
+			issueOverlap()
+			if f.closeReturned() {
+				break
+			}
+		}
 		if !s.Step() {
 			break
 		}
@@ -817,21 +934,48 @@ func (f *c14Flow) run() {
 		s.Count("probe_close_interleaved")
 		s.Choose("during-close", acts)
 	}
+	if overlapAt >= 0 && !f.closeReturned() {
+		issueOverlap()
+	}
 
-	// phase 3: release everything; Close must return
-	if !f.drain(func() bool { return f.closeOp.Done }) {
-		s.Violate("close-hang", "%s: Close did not return although every parked call was released (cancellations first) and %v of virtual time passed with nothing parked", f.name, c14B)
-		return
-	}
-	if f.closeOp.Panic != "" {
-		s.Violate("close-panic", "%s: Close panicked: %s", f.name, firstLine(f.closeOp.Panic))
-		return
-	}
-	s.Tracef("close returned")
-	if f.long != nil {
-		f.checkCloseInstant()
-		if s.Failed() {
+	// phase 3: release everything; every Close must return, and each is judged
+	// at the first quiescent instant after it returned
+	for {
+		if !f.drain(f.closeReturned) {
+			if !f.closeOp.Done {
+				s.Violate("close-hang", "%s: Close did not return although every parked call was released (cancellations first) and %v of virtual time passed with nothing parked", f.name, c14B)
+			} else {
+				s.Violate("second-close-hang", "%s: a second Close, issued while the first had not returned yet, did not return although the first did, every parked call was released and %v of virtual time passed with nothing parked", f.name, c14B)
+			}
 			return
+		}
+		for _, op := range []*Op{f.closeOp, f.overlapOp} {
+			if op == nil || !op.Done || f.closeSeen[op] {
+				continue
+			}
+			f.closeSeen[op] = true
+			if op.Panic != "" {
+				if op == f.closeOp {
+					s.Violate("close-panic", "%s: Close panicked: %s", f.name, firstLine(op.Panic))
+				} else {
+					s.Violate("second-close-panic", "%s: a second Close, issued while the first had not returned yet, panicked: %s", f.name, firstLine(op.Panic))
+				}
+				return
+			}
+			if op == f.closeOp {
+				s.Tracef("close returned")
+			} else {
+				s.Tracef("overlapping close returned")
+			}
+		}
+		if f.long != nil {
+			f.checkCloseInstant(!f.closeOp.Done)
+			if s.Failed() {
+				return
+			}
+		}
+		if f.closeOp.Done && (f.overlapOp == nil || f.overlapOp.Done) {
+			break
 		}
 	}
 
